@@ -113,7 +113,7 @@ CHECKS["C05"] = {
     "technique": "explicit-state BFS over token histories (three alphabets) and deviation-bounded token-edit histories under all schedules with <= P preemptions of the real coupled request/response parser, with a lifecycle monitor automaton on every callback; merge soundness of the search self-checked",
     "level_text": "Every event history up to the stated depth over the micro (line-sized, incl. malformed and half tokens) and macro (message-sized) alphabets is executed on the "
                   "real parser; the M-life monitor (per-side callback rank never decreases except the interim-100 restart, progress never moves back, each COMPLETE at most "
-                  "once, TRANSACTION_COMPLETE only with both sides complete, nothing after it) is evaluated on every callback of every transition. Depth-bounded exhaustive, "
+                  "once, TRANSACTION_COMPLETE only with both sides complete, nothing after it, no TRAILER hook without the HEADERS hook before it) is evaluated on every callback of every transition. Depth-bounded exhaustive, "
                   "BFS-minimal counterexamples; deeper damaged histories come from the token-edit workload (27 base exchanges incl. coded bodies in chunked framing with a trailer, complete "
                   "and cut short, under three configurations) and from the CONNECT / upgrade schedules of C16 (every cut pair, forced cuts at the head / greeting end, every legal interleaving), "
                   "which carry the same monitor.",
